@@ -157,6 +157,29 @@ def main(tier):
                           {"kind": "pair", "s": s, "t": t, "sep": si})
                 pair_ids.append(pid)
 
+    # one statement, several operand values: loop iterations (`index` in the operand) and macro calls (the parameter as operand) that
+    # cross the zero-page boundary / the immediate range; every instance is encoded on its own
+    import re as _re
+    rows = _re.findall(r'<<"(\w+)","(\w+)",\\h([0-9A-Fa-f]{2})>>', open(os.path.join(SPEC, "Isa6502.tla")).read())
+    modes = {}
+    for mn, mode, _ in rows:
+        modes.setdefault(mn, set()).add(mode)
+    seq_forms = []
+    for mn in sorted(modes):
+        for zp, ab, form in (("zp", "abs", "dir"), ("zpx", "absx", "dirx"), ("zpy", "absy", "diry")):
+            if zp in modes[mn] and ab in modes[mn]:
+                seq_forms.append((mn, form))
+    if tier == "quick":
+        rnd.shuffle(seq_forms)
+        seq_forms = sorted(seq_forms[:24])
+    for mn, form in seq_forms:
+        for base, cnt in ((0xfe, 4), (0x100, 2), (0xfd, 3)):
+            items = [{"mn": mn, "form": form, "v": base + i} for i in range(cnt)]
+            add("* = $1000\n.loop %d { %s }\n" % (cnt, FORM_TMPL[form].format(mn=mn, e="$%x + index" % base)), {"kind": "seq", "items": items})
+            add("* = $1000\n.loop %d { %s }\n" % (cnt, FORM_TMPL[form].format(mn=mn, e="$%x - index" % (base + cnt - 1))),
+                {"kind": "seq", "items": list(reversed(items))})
+            add("* = $1000\n.macro sq(v) { %s }\n%s\n" % (FORM_TMPL[form].format(mn=mn, e="v"), "\n".join("sq($%x)" % it["v"] for it in items)),
+                {"kind": "seq", "items": items})
     V.log("[C01] %d programs to assemble" % len(cases))
     obs, p = V.run_harness("asmdrive", cases, "C01-drive")
     if len(obs) != len(cases):
@@ -181,6 +204,9 @@ def main(tier):
             recs.append({"id": cid, "kind": "br", "mn": m["mn"], "form": "dir", "v": m["v"], "addr": m["addr"],
                          "ok": o["ok"], "bytes": b, "ndiags": ndiags,
                          "pcafter": (o["segments"][0]["pc"] if (o["ok"] and m["pcafter_known"]) else -1)})
+        elif m["kind"] == "seq":
+            recs.append({"id": cid, "kind": "seq", "mn": "", "form": "", "v": 0, "addr": 0x1000, "items": m["items"],
+                         "ok": o["ok"], "bytes": whole(o) if o["ok"] else [], "ndiags": ndiags, "pcafter": -1})
         elif m["kind"] == "pair":
             sa, sb = obs[single_id[m["s"]["text"]]], obs[single_id[m["t"]["text"]]]
             if not (sa["ok"] and sb["ok"]):
